@@ -159,6 +159,16 @@ def mon_c04(H, s, ok, store, exc, request=(), fields=()):
             sorted(set(s.forms) - forms)[:4], sorted(forms - set(s.forms))[:4]))
     if not sol_forms <= set(s.forms):
         out.append('solution mentions forms that are not participating: %s' % sorted(sol_forms - set(s.forms))[:3])
+    # the public accessor: Solver.solution() lists exactly the stored lines (option names are lower-cased by configparser)
+    try:
+        cfgp = s.solution()
+        listed = set('%s.%s' % (sec, opt) for sec in cfgp.sections() for opt in cfgp.options(sec))
+        want = set('%s.%s' % (n.split('.')[0], n.split('.', 1)[1].lower()) for n in have)
+        if listed != want:
+            out.append('Solver.solution() does not list exactly the solved lines: extra %s missing %s' % (
+                sorted(listed - want)[:4], sorted(want - listed)[:4]))
+    except Exception as e:  # noqa
+        out.append('Solver.solution() raised %r' % (e,))
     return out
 
 
